@@ -82,4 +82,41 @@ def das_noamp_linear {K : Type} {D : Type} [Add K] [Sub K] [Mul K] [Div K] [Neg 
   let cell_result := (d.divNat res_tmp numtimetraces)
   cell_result
 
+/-- generated from `arim/im/das.py`, function `sinc` (line 578): the kernels' own sinc (numpy convention, 1 at 0) -/
+def das_sinc {K : Type} [Add K] [Sub K] [Mul K] [Div K] [Neg K] [DecidableEq K]
+    (o : Ops K) (x : K) : K :=
+  if (x = (o.ofNat 0)) then
+      (o.ofNat 1)
+  else
+      ((o.sin (o.pi * x)) / (o.pi * x))
+
+/-- generated from `arim/im/das.py`, function `lanczos_interpolation` (line 586): `n` is `len(x)` -/
+def lanczos_interpolation {K : Type} {D : Type} [Add K] [Sub K] [Mul K] [Div K] [Neg K] [DecidableEq K]
+    (o : Ops K) (d : Arim.Das.Data K D) (t : K) (x : Nat → D) (a : Nat) (n : Nat) : D :=
+  let i_min := (((o.floor t) - ((a : Nat) : Int)) + (1 : Int))
+  let i_max := (((o.floor t) + ((a : Nat) : Int)) + (1 : Int))
+  let n := n
+  let out := d.zero
+  let out := (pyRangeI i_min i_max).foldl (fun out i =>
+        let out := (d.add out (d.smul (das_sinc o ((t - (o.ofInt i)) / (o.ofNat a))) (d.smul (das_sinc o (t - (o.ofInt i))) (x ((i % ((n : Nat) : Int))).toNat))))
+        out) out
+  out
+
+/-- generated from `arim/im/das.py`, function `_delay_and_sum_noamp_lanczos` (line 597) -/
+def das_noamp_lanczos {K : Type} {D : Type} [Add K] [Sub K] [Mul K] [Div K] [Neg K] [LT K] [DecidableLT K] [LE K] [DecidableLE K] [DecidableEq K]
+    (o : Ops K) (d : Arim.Das.Data K D) (weighted_timetraces : Nat → Nat → D) (tx : Nat → Nat) (rx : Nat → Nat) (lookup_times_tx : Nat → Nat → K) (lookup_times_rx : Nat → Nat → K) (invdt : K) (t0 : K) (fillvalue : D) (a : Nat) (numtimetraces : Nat) (numsamples : Nat) (point : Nat) : D :=
+  let res_tmp := d.zero
+  let res_tmp := (List.range numtimetraces).foldl (fun res_tmp scan =>
+        let lookup_time := ((lookup_times_tx point (tx scan)) + (lookup_times_rx point (rx scan)))
+        let lookup_index := ((lookup_time - t0) * invdt)
+        let res_tmp := (if ((lookup_index < (o.ofNat 0)) ∨ (lookup_index ≥ (o.ofNat numsamples))) then
+            let res_tmp := (d.add res_tmp fillvalue)
+            res_tmp
+          else
+            let res_tmp := (d.add res_tmp ((fun t x a => lanczos_interpolation o d t x a numsamples) lookup_index (weighted_timetraces scan) a))
+            res_tmp)
+        res_tmp) res_tmp
+  let cell_result := (d.divNat res_tmp numtimetraces)
+  cell_result
+
 end Arim.Src
